@@ -319,7 +319,7 @@ def st_tiny_card(
             deg=deg,
             method=method,
             iters=draw(st.integers(*iters)),
-            max_order=[draw(st.integers(2, 6)), qe],
+            max_order=[draw(st.integers(max(2, qcd), 8)), qe],  # the U expansion needs at least the evolution order
             sv=svm,
             inv=inv,
             pol=pol,
